@@ -27,6 +27,7 @@
 #include <netinet/in.h>
 #include <arpa/inet.h>
 #include <netinet/tcp.h>
+#include <sys/wait.h>
 
 /* ------------------------------------------------------------------ raw syscalls */
 static long raw6(long n, long a, long b, long c, long d, long e, long f) {
@@ -64,7 +65,8 @@ static void viol(const char* sig, const char* fmt, ...) {
   char b[512]; va_list ap; va_start(ap, fmt); vsnprintf(b, sizeof b, fmt, ap); va_end(ap);
   nviol++; outf("MONITOR %s %s", sig, b);
 }
-static int active(void) { return in_uv && (int) raw6(SYS_getpid, 0, 0, 0, 0, 0, 0) == main_pid; }
+static int forking;        /* inside the `fork` op: the atfork handlers of the child belong to the ledger too */
+static int active(void) { return in_uv && (forking || (int) raw6(SYS_getpid, 0, 0, 0, 0, 0, 0) == main_pid); }
 static int getfd_flags(int fd) { return (int) raw6(SYS_fcntl, fd, F_GETFD, 0, 0, 0, 0); }
 
 /* failure injection for the current op: k-th call of <name> fails with errno e */
@@ -446,7 +448,7 @@ int main(int argc, char** argv) {
       int rc = UVCALL(uv_loop_init(loop)); loop_ok = rc == 0; lock_want = 0; outf("ret %s", R(rc)); outf("# rc=%d", rc);
     } else if (!strcmp(op, "loop_close")) {
       int rc = loop_ok ? UVCALL(uv_loop_close(loop)) : UV_EINVAL; if (rc == 0) loop_ok = 0; outf("ret %s", R(rc));
-    } else if (!loop_ok && strcmp(op, "end") && strcmp(op, "ufd") && strcmp(op, "uclose") && strcmp(op, "uv_pipe") && strcmp(op, "uv_socketpair")) {
+    } else if (!loop_ok && strcmp(op, "end") && strcmp(op, "fork") && strcmp(op, "ufd") && strcmp(op, "uclose") && strcmp(op, "uv_pipe") && strcmp(op, "uv_socketpair")) {
       outf("bad-op");
     } else if (!strcmp(op, "tcp_init") && nw == 2) {
       int i = newh(K_TCP); int af = !strcmp(w[1], "inet") ? AF_INET : !strcmp(w[1], "inet6") ? AF_INET6 : AF_UNSPEC;
@@ -689,6 +691,20 @@ int main(int argc, char** argv) {
         outf("# %s", rb);
       }
       raw6(SYS_close, rp[0], 0, 0, 0, 0, 0); priv[rp[0]] = 0;
+    } else if (!strcmp(op, "fork")) {
+      /* fork(): the parent only waits and passes the child's verdict on; the CHILD carries the ledger on and runs the
+       * rest of the program (uv_loop_fork first, as the documentation requires) */
+      for (int k = 0; k < MAXFD; k++) if (L[k].live && L[k].glob) lock_want = 2;   /* the atfork handler replaces the lock pipe */
+      forking = 1; in_uv = 1;
+      pid_t cp = fork();
+      if (cp > 0) {
+        int st = 0; while (waitpid(cp, &st, 0) < 0 && errno == EINTR);
+        _exit(WIFEXITED(st) ? WEXITSTATUS(st) : 128 + WTERMSIG(st));
+      }
+      if (cp < 0) { forking = 0; in_uv = 0; outf("bad-op"); goto after; }
+      main_pid = (int) raw6(SYS_getpid, 0, 0, 0, 0, 0, 0); forking = 0; lock_want = 0;
+      int rc = loop_ok ? uv_loop_fork(loop) : 0;
+      in_uv = 0; outf("ret %s", R(rc)); outf("# rc=%d", rc);
     } else if (!strcmp(op, "end")) {
       userclose_all(); isfinal = 1; outf("ret 0");
     } else {
